@@ -379,6 +379,13 @@ def gen_build(g, k):
     for i in (1, 2, 4, 16):                               # single-valued kinds: the same call twice is one tag
         a = g.call(i, ok=True)
         c.append("build %s" % lst([a, a]))
+    # boundary arguments: all-zero fields, empty variable parts (a setter that drops a tag "without information")
+    zero = {1: [hx(b"")], 2: [hx(b"")], 4: [0, 0], 5: [0, 0, 0], 6: [lst([])], 11: [0], 12: [0], 13: [0, 0, hx(b"")], 16: [hx(b"")],
+            19: [0], 20: [0], 21: [0]}
+    for i, a in sorted(zero.items()):
+        c.append("build %s" % lst([lst([i] + a)]))
+        c.append("build %s" % lst([g.call(i, ok=True), lst([i] + a)]))
+    c.append("build %s" % lst(lst([i] + a) for i, a in sorted(zero.items())))
     for pos in (0, 1, 2):                                 # a panicking call at every position
         good = [g.call(i, ok=True) for i in (1, 4)]
         for bad in (lst([3, 5, 5, hx(b"m")]), lst([3, 6, 5, hx(b"m")]), lst([17, 0, 1, hx(bytes(40))]),
@@ -404,6 +411,14 @@ def gen_hbuild(g, k):
     for _ in range(100 * k):                              # repeats: a later call replaces the earlier one
         ids = [r.randint(1, 10) for _ in range(r.randint(1, 14))]
         c.append("hbuild %d %s" % (r.choice([0, 4]), lst(g.hcall(i) for i in ids)))
+    # every kind with all-zero and all-ones fields (a setter that treats a "no preference" value as "no tag")
+    for fill in (0, 0xFFFFFFFF):
+        zero = {2: [0, fill, fill, fill, fill], 3: [0, fill], 5: [0, fill, fill, fill], 8: [1, fill], 9: [1, fill],
+                10: [0, fill, fill, fill, 0 if fill == 0 else 2], 4: [0, 0 if fill == 0 else 1], 1: [0, lst([fill] if fill else [])]}
+        for i, a in sorted(zero.items()):
+            c.append("hbuild 0 %s" % lst([lst([i] + a)]))
+            c.append("hbuild 0 %s" % lst([g.hcall(i), lst([i] + a)]))          # a real tag, then the boundary one
+        c.append("hbuild 0 %s" % lst(lst([i] + a) for i, a in sorted(zero.items())))
     # long headers: request lists that make the header longer than the 8192-byte search window, 32 KiB, 64 KiB
     for n in (2030, 2040, 2050, 8190, 16400):
         req = lst([r.randint(0, 1), lst(r.randint(0, 22) for _ in range(n))])
